@@ -7,6 +7,7 @@ real runners (translated from runner.rs on every run) are the same loop.
 -/
 import Bourse.Model.Agents
 import Bourse.Generated.RunnerBranches
+import Bourse.Lemmas.SimHistory
 
 namespace Bourse.Props.C09
 open Bourse
@@ -78,5 +79,76 @@ example :
     ((simRunner e [ag] 37396 5).map fun r => r.2.1.market.books.map (·.orders.map (·.order.price))) ≠
       ((simRunner e [ag] 37397 5).map fun r => r.2.1.market.books.map (·.orders.map (·.order.price))) := by
   decide
+
+/-! ### Every composition of the built-in agents (`Model/Sim`): random, noise, momentum, derived sets -/
+
+/-- One iteration of the general runner. -/
+theorem simLoopG_succ (th : F → F) (n : Nat) (as : SimAgents) (e : MEnv) (g : Xoro) :
+    simLoopG th (n + 1) as e g =
+      (as.updateAll th e g).bind (fun r => simLoopG th n r.1 (r.2.1.step r.2.2).1 (r.2.1.step r.2.2).2) := by
+  simp only [simLoopG]
+  cases as.updateAll th e g with
+  | none => rfl
+  | some r => rfl
+
+/-- **A run is a fold, for every composition of agents**: `n + m` steps are `n` steps and then `m`
+more from the state (agents, environment, generator) the first `n` left; nothing else is carried. -/
+theorem simLoopG_add (th : F → F) (n m : Nat) (as : SimAgents) (e : MEnv) (g : Xoro) :
+    simLoopG th (n + m) as e g = (simLoopG th n as e g).bind (fun r => simLoopG th m r.1 r.2.1 r.2.2) := by
+  induction n generalizing as e g with
+  | zero => simp [simLoopG]
+  | succ n ih =>
+    rw [show n + 1 + m = (n + m) + 1 by omega, simLoopG_succ, simLoopG_succ]
+    cases as.updateAll th e g with
+    | none => rfl
+    | some r => simp only [Option.bind_some]; exact ih _ _ _
+
+/-- Same seed, environment, agents (parameters, samplers, private states), `tanh` and step count:
+the same run — orders, trades, records, agents' states and the generator. -/
+theorem general_run_deterministic (th : F → F) (e1 e2 : MEnv) (as1 as2 : SimAgents) (s1 s2 n1 n2 : Nat)
+    (he : e1 = e2) (ha : as1 = as2) (hs : s1 = s2) (hn : n1 = n2) :
+    simRunnerG th e1 as1 s1 n1 = simRunnerG th e2 as2 s2 n2 := by
+  subst he ha hs hn; rfl
+
+/-- **An update of any agent or derived set of agents is a sequence of environment submissions**
+(so the generator is the only thing besides the environment it reads, and `place_order` /
+`cancel_order` the only way it acts). -/
+theorem agent_update_is_submissions (th : F → F) (a : SimAgent) (e : MEnv) (g : Xoro) (a' : SimAgent) (e' : MEnv) (g' : Xoro)
+    (h : a.update th e g = some (a', e', g')) :
+    ∃ ops : List MEnv.EOp, (∀ op ∈ ops, Props.C10.IsSubmission op) ∧ ∀ g0, MEnv.runOps (e, g0) ops = (e', g0) :=
+  SimAgent.update_subs th a e g a' e' g' h
+
+/-- **A whole simulation is a history of environment operations**: for every composition of agents,
+every sampler, every `tanh`, every seed and step count, the final environment is reached from the
+initial one by submissions and steps only — so the theorems about environment histories (C08, C10,
+C11, C14) and, per asset, about book histories speak about every simulation. -/
+theorem simulation_is_environment_history (th : F → F) (e : MEnv) (as : SimAgents) (seed steps : Nat)
+    (as' : SimAgents) (e' : MEnv) (g' : Xoro) (h : simRunnerG th e as seed steps = some (as', e', g')) :
+    SimReach e e' :=
+  simLoopG_reach th steps as e _ as' e' g' h
+
+/-- … in particular nothing an agent does between two steps is visible before the next step: the
+cached level-2 data, every recorded series and the per-step volumes are unchanged by any update, and
+every book only gains New orders. -/
+theorem agent_update_invisible (th : F → F) (as : SimAgents) (e : MEnv) (g : Xoro) (as' : SimAgents) (e' : MEnv) (g' : Xoro)
+    (h : as.updateAll th e g = some (as', e', g')) :
+    e'.l2 = e.l2 ∧ e'.records = e.records ∧ e'.tradeVols = e.tradeVols ∧ Props.C10.MarketExt e.market e'.market := by
+  obtain ⟨ops, hs, hr⟩ := SimAgents.updateAll_subs th as e g as' e' g' h
+  have := Props.C10.submissions_invisible (e, g) ops hs
+  simp only [hr g] at this
+  exact ⟨this.2.1, this.2.2.1, this.2.2.2.1, this.2.2.2.2.2.2⟩
+
+
+/-- Non-vacuity: a derived set holding a nested set with random agents, five steps: the general
+runner produces exactly the run of the special-purpose loop `simRunner` (the one tied bit for bit to
+real simulations). -/
+example :
+    let e := MEnv.new 11 [2] 4 true 10
+    let ag : RandomAgents := { asset := 0, orders := [none, none, none], tickLo := 8, tickHi := 11, volLo := 4,
+                               volHi := 6, tickSize := 2, rateNum := 8, rateDen := 16 }
+    ((simRunnerG (fun x => x) e (.cons (.set (.cons (.random ag) .nil)) .nil) 37396 5).map
+        fun r => r.2.1.market.books.map (·.orders.map (·.order.price))) =
+      ((simRunner e [ag] 37396 5).map fun r => r.2.1.market.books.map (·.orders.map (·.order.price))) := by
+  decide +kernel
 
 end Bourse.Props.C09
